@@ -99,15 +99,21 @@ def strip_comments(src):
     return re.sub(r"--.*", "", src)
 
 
-def source_grep():
-    bad = []
-    for root in ("CoseProofs", "CoseSpec", "CoseModel"):
+def module_path(mod):
+    return os.path.join(LEAN, *mod.split(".")) + ".lean"
+
+
+def source_grep(pid):
+    """forbidden constructs in the model, the spec, the lemma library and the property's modules"""
+    files = [os.path.join(LEAN, "CoseSpec.lean")]
+    for root in ("CoseModel", os.path.join("CoseProofs", "Lemmas")):
         for dp, _, fs in os.walk(os.path.join(LEAN, root)):
-            for f in fs:
-                if f.endswith(".lean"):
-                    p = os.path.join(dp, f)
-                    if FORBIDDEN.search(strip_comments(open(p).read())):
-                        bad.append(os.path.relpath(p, LEAN))
+            files += [os.path.join(dp, f) for f in fs if f.endswith(".lean")]
+    files += [module_path(m) for m in P.modules_for(pid)]
+    bad = []
+    for p in files:
+        if os.path.exists(p) and FORBIDDEN.search(strip_comments(open(p).read())):
+            bad.append(os.path.relpath(p, LEAN))
     return bad
 
 
@@ -118,7 +124,7 @@ def lake_build(targets):
 
 def audit(pid):
     """list the theorems of namespace <pid> with their axioms: [(name, [axioms])]"""
-    src = "import CoseProofs.Audit\nimport CoseProofs.Props.%s\n#audit %s\n" % (pid, pid)
+    src = "import CoseProofs.Audit\n" + "".join("import %s\n" % m for m in P.modules_for(pid)) + "#audit %s\n" % pid
     with tempfile.NamedTemporaryFile("w", suffix=".lean", dir=LEAN, delete=False) as f:
         f.write(src)
         path = f.name
@@ -358,9 +364,9 @@ def run_property(pid, tier, seed):
         facts_ok, facts_note = regenerate_facts()
         if not facts_ok:
             notes.append("facts not regenerated: " + facts_note)
-        bad_src = source_grep()
+        bad_src = source_grep(pid)
         ok_model, out_model = lake_build(["cosemodel"])
-        ok_proofs, out_proofs = lake_build(["CoseProofs.Props." + pid])
+        ok_proofs, out_proofs = lake_build(P.modules_for(pid))
         thms, audit_out = ([], "")
         if ok_proofs:
             thms, audit_out = audit(pid)
